@@ -13,7 +13,10 @@ RECURSIVE TrailingZeros(_, _, _)
 TrailingZeros(p, i, w) == IF i >= w THEN w ELSE IF ZBitAbs(p, i) = 1 THEN i ELSE TrailingZeros(p, i + 1, w)
 RotL(p, m, w) == IF m = 0 THEN p ELSE ZUMod2(ZAdd(ZShl(p, m), ZFloorShr(p, w - m)), w)
 
-AcceptBits(e) ==
+\* "sp": every other spelling of the operator (by-reference operands, assigning-by-reference form, the twelve integer
+\* types of a shift amount below the width) denotes the same operation as the by-value form o[1]
+SpellOk(e) == ("sp" \in DOMAIN e) => \A i \in 1..Len(e.sp) : e.sp[i] = e.o[1]
+AcceptBitsOp(e) ==
   LET L == e.L  w == LW(L)  a == ZJ(e.a)  p == Pat(a, L)  o == e.o IN
   CASE e.op = "and" -> \A i \in 1..2 : ValIs(o[i], OfPat(ZBitAnd(p, Pat(ZJ(e.b), L)), L))
     [] e.op = "or"  -> \A i \in 1..2 : ValIs(o[i], OfPat(ZBitOr(p, Pat(ZJ(e.b), L)), L))
@@ -40,4 +43,5 @@ AcceptBits(e) ==
          /\ o[1] = <<0, IF PopCount(p, w) = 1 THEN 1 ELSE 0>>
          /\ (Fits(np, L) => ValIs(o[2], np))
          /\ (IF Fits(np, L) THEN ValIs(o[3], np) ELSE IsNone(o[3]))
+AcceptBits(e) == AcceptBitsOp(e) /\ SpellOk(e)
 =============================================================================
